@@ -1005,7 +1005,8 @@ def hoist_value_helpers(fn, find_method, max_body=12):
                 if c is getattr(st, "value", None) and isinstance(st, (ast.Expr,)):
                     continue          # a call that *is* the statement: inline_helpers' business
                 if isinstance(c, ast.Call) and isinstance(c.func, ast.Attribute) and isinstance(c.func.value, ast.Name) \
-                        and c.func.value.id == "self" and all(simple(a) for a in c.args) and not c.keywords:
+                        and c.func.value.id == "self" and not c.keywords \
+                        and not any(isinstance(a, ast.Starred) for a in c.args):
                     h = find_method(c.func.attr)
                     if h is None or h.name == fn.name or any("property" in norm_(d) for d in h.decorator_list):
                         continue
@@ -1027,7 +1028,17 @@ def hoist_value_helpers(fn, find_method, max_body=12):
             for nm in stored:
                 if nm not in m:
                     m[nm] = ast.Name(id=f"{nm}__{h.name.strip('_')}", ctx=ast.Load())
-            new_pre = [substitute_stmt(b, m) for b in body[:-1]]
+            # an argument that is not plain (`self._link(Wrapper(v))`) is evaluated once, into a local named after the
+            # parameter: the helper's statements and the value it returns speak of the same object
+            arg_pre = []
+            for pn, a in list(m.items()):
+                if pn in stored or simple(a):
+                    continue
+                tmp = f"{pn}__{h.name.strip('_')}"
+                arg_pre.append(ast.Assign(targets=[ast.Name(id=tmp, ctx=ast.Store())], value=a, lineno=st.lineno,
+                                          col_offset=st.col_offset))
+                m[pn] = ast.Name(id=tmp, ctx=ast.Load())
+            new_pre = arg_pre + [substitute_stmt(b, m) for b in body[:-1]]
             value = substitute(body[-1].value, m)
             for x in [y for b in new_pre for y in ast.walk(b)] + list(ast.walk(value)):
                 if isinstance(x, (ast.expr, ast.stmt)):
